@@ -26,6 +26,39 @@ def run(ctx):
             require_guard(ctx, f, Cmp(["range", "call:*ExtendedHeader::height"], ["self.last_sent_height"], pass_op="Ge", name="historical ranges (below last sent height) are never announced"), "C37.not-historical", targets=sends)
             for b in sends:
                 require_guard(ctx, f, Cmp(["self.last_sent_height"], ["call:*ExtendedHeader::height"], pass_op="Eq", name="last_sent_height + 1 == first height of the announced range"), "C37.consecutive", targets=[b], what="send at %s only for the range that continues the stream" % f.loc(b))
+        # the pending drain: when the drain is an index loop over self.pending (today's idiom), sending a
+        # range moves last_sent_height, so ranges that were skipped earlier in the pass may have become
+        # adjacent: the scan index must restart at 0 on the way back to the loop head. Other idioms
+        # (sort first, search-until-none) have no such index and the rule does not speak about them.
+        rm = [b for b in call_sites_with(ctx, f, ["*Vec*::swap_remove", "*Vec*::remove"]) if has_leaf(ctx.leaves(call_expr(f, b)[3][0]), "self.pending")]
+        for b in rm:
+            t = f.blocks[b]["t"]
+            op = t["args"][1] if len(t["args"]) > 1 else None
+            pl = (op.get("cp") or op.get("mv")) if op else None
+            if not pl or pl.get("p"):
+                continue
+            idx = pl["l"]
+            for _ in range(4):
+                defs = [d for d in f.defs().get(idx, []) if d[0] == "assign"]
+                if len(defs) == 1 and defs[0][4]["k"] == "use" and (defs[0][4]["a"].get("cp") or defs[0][4]["a"].get("mv")) and not (defs[0][4]["a"].get("cp") or defs[0][4]["a"].get("mv")).get("p"):
+                    idx = (defs[0][4]["a"].get("cp") or defs[0][4]["a"].get("mv"))["l"]
+                else:
+                    break
+            in_loop = b in f.reachable_from(f.succ(b))
+            inloop_sends = [x for x in sends if x in f.reachable_from([b]) and b in f.reachable_from([x])]
+            if not (in_loop and inloop_sends):
+                continue
+            heads = [d for x in f.reachable_from([b]) for d in f.succ(x) if f.dominates(d, x) and f.dominates(d, b)]
+            zero, other = [], []
+            for x in sorted(f.reachable_from(inloop_sends, removed_blocks=set(heads))):
+                for i, st in enumerate(f.stmts(x)):
+                    if st["d"]["l"] == idx and not st["d"].get("p"):
+                        r = st["r"]
+                        (zero if r["k"] == "use" and isinstance(r.get("a"), dict) and r["a"].get("v") == 0 and "c" in r["a"] else other).append(x)
+            leak = f.path_to(inloop_sends, heads, (), set(zero)) if heads else None
+            ctx.check(bool(zero) and not other and leak is None, "C37.pending.rescan", f.path,
+                      "after a pending range is sent the scan of the pending list restarts from the beginning (index reset to 0 on every path back to the loop head)",
+                      site=f.loc(inloop_sends[0]), key="C37.pending.rescan", path=f.render_path(leak) if leak else None)
         ins = call_sites_with(ctx, f, ["lumina_node::store::Store::insert"])
         ctx.check(len(ins) == 2, "C37.insert.sites", f.path, "store insert on both the historical and the live arm", key="C37.insert.sites")
     s = ctx.anchor(B + "send_range")
